@@ -336,6 +336,9 @@ CLAIMED["C07"] = {
     "and the round trip of the whole reparameterisation as a pair lemma; "
     "the same methods with the log pre-rescaling (closed forms, additive "
     "log-Jacobian, round trip of the argument of the final exponential); "
+    "RescaleToBounds.update_bounds (the new bounds are the attained "
+    "extremes of the training points after the offset; untouched when "
+    "updating is off); "
     "RescaleToBounds.__init__ (configure_pre/post_rescaling inlined): no "
     "prime prior is offered once a post-rescaling is configured, logit "
     "forces unit rescale bounds and is rejected with moving bounds; "
@@ -363,7 +366,7 @@ CLAIMED["C07"] = {
     "constructor beyond the two option families under contract (no "
     "post-rescaling / logit; default rescale bounds, no inversion, no "
     "offset), pre-rescalings other than log, "
-    "inversion (split / duplicate), update_bounds, the prime bounds under "
+    "inversion (split / duplicate), the prime bounds under "
     "inversion, Angle with a sampled radius (the round trip of Angle is "
     "proved MODULO two stated library facts -- arctan2 / sqrt invert the "
     "polar map -- which are hypotheses of the lemma, checked numerically "
